@@ -23,11 +23,14 @@ def own_reverse(w):
     return wd + (wd - w)
 
 
-def install_own_ascent(world):
+def install_own_ascent(world, conds=None):
     import torchphysics as tp
     n = 0
-    for c in world.train + world.val:
+    for c in (conds if conds is not None else world.train + world.val):
         if isinstance(c, tp.conditions.AdaptiveWeightsCondition):
+            if getattr(c, "_c07_own_ascent", False):
+                n += 1
+                continue
             aw = None
             for path, p in W.reach_learnables([c.reduce_fn]):
                 aw = p
@@ -38,6 +41,7 @@ def install_own_ascent(world):
                 return torch.mean(own_reverse(aw) * e)
 
             c.reduce_fn = red
+            c._c07_own_ascent = True
             n += 1
     return n
 
@@ -52,22 +56,21 @@ def make_optimizer(ospec, params):
     return opt, sched, freq
 
 
-def run(spec, steps, world=None):
-    """-> dict(world, names, params, theta0, traj[step] (state after step+1 steps), opt, opt_state, lrs, losses)"""
-    w = world if world is not None else W.build(spec)
-    reached = W.reach_learnables(w.train)
+def run_stage(w, train, ospec, steps):
+    """the plain loop on the given condition objects with a fresh optimizer / scheduler"""
+    reached = W.reach_learnables(train)
     names = [n for n, _ in reached]
     params = [p for _, p in reached]
-    n_adaptive = install_own_ascent(w)
+    n_adaptive = install_own_ascent(w, train)
     theta0 = W.clone_state(params)
-    opt, sched, freq = make_optimizer(spec["opt"], params)
-    is_lbfgs = spec["opt"]["cls"] == "LBFGS"
+    opt, sched, freq = make_optimizer(ospec, params)
+    is_lbfgs = ospec["cls"] == "LBFGS"
     traj, losses, lr_traj = [], [], []
     for it in range(steps):
         def closure():
             opt.zero_grad()
             loss = torch.zeros(1)
-            for c in w.train:
+            for c in train:
                 loss = loss + c.weight * c(device="cpu", iteration=it)
             loss.backward()
             return loss
@@ -88,3 +91,30 @@ def run(spec, steps, world=None):
     return {"world": w, "names": names, "params": params, "theta0": theta0, "traj": traj, "opt": opt,
             "opt_state": opt_state, "lrs": lrs, "lr_traj": lr_traj, "losses": losses, "n_adaptive": n_adaptive,
             "sched_last_epoch": (sched.last_epoch if sched is not None else None)}
+
+
+def run(spec, steps, world=None):
+    """-> dict(world, names, params, theta0, traj[step] (state after step+1 steps), opt, opt_state, lrs, losses)"""
+    w = world if world is not None else W.build(spec)
+    return run_stage(w, w.train, spec["opt"], steps)
+
+
+def run_staged(spec):
+    """Several training stages on ONE world (shared models / Parameters).  Every stage gets the reference's own fresh
+    optimizer built from the stage's (class, lr, args, scheduler) -- the harness' own bookkeeping of what each stage
+    was configured with.  Conditions are reused from the previous stage or freshly built (bystander conditions are
+    built first and never trained).  -> list of run_stage results, each with "world_state" after the stage."""
+    w = W.build_base(spec)
+    out, train = [], None
+    for si, st in enumerate(spec["stages"]):
+        if st.get("reuse") and train is not None:
+            pass
+        else:
+            W.build_conditions(w, st.get("bystanders", []), "s%db" % si)      # built, never trained
+            train = W.build_conditions(w, st["conds"], "s%dc" % si)
+        r = run_stage(w, train, st["opt"], st["steps"])
+        wl = W.world_learnables(w)
+        r["world_names"] = [n for n, _ in wl]
+        r["world_state"] = W.clone_state([p for _, p in wl])
+        out.append(r)
+    return out
